@@ -203,8 +203,7 @@ def File.metaOK (f : File) : Prop :=
 
 instance (f : File) : Decidable f.metaOK := by
   unfold File.metaOK
-  cases f.pages.head? <;> cases f.metaPage <;> simp only <;> try infer_instance
-  · cases f.am <;> simp [AM.metaBit] <;> infer_instance
+  cases f.pages.head? <;> cases f.metaPage <;> simp only <;> infer_instance
 
 def File.WF (f : File) : Prop :=
   (∀ p ∈ f.pages, p.WF ∧ p.op.am = f.am) ∧ f.metaOK ∧ f.tail.length < 8192
